@@ -121,7 +121,7 @@ def ob_label_to_tags(lab: int, use_fn: int, use_term_map: bool, use_tag_map: boo
     post: _
     """
     try:
-        label = (VALS + ["__empty__", "zzz"])[_pick(lab, 5)]
+        label = (["a", "__empty__"] + VALS[1:] + ["zzz"])[_pick(lab, h.P("nlabels", 5))]
     except _Vac:
         return True
     T = lambda k: data.Term(label=k, name="x:" + k, definition="d")  # noqa: E731
@@ -181,18 +181,26 @@ def _tags(codes):
             for c in codes]
 
 
-def ob_label_from_tags(n: int, c0: int, c1: int, c2: int, how: int, value_only: int, idx: int, key: int,
+def ob_label_from_tags(n: int, c0: int, c1: int, c2: int, value_only: int, idx: int, key: int,
                        use_map: bool, use_fn: bool) -> bool:
     """
-    pre: 0 <= how <= 3
-    pre: -4 <= idx <= 4
+    pre: -3 <= idx <= 3
     pre: 0 <= value_only <= 2
     post: _
     """
+    how = h.P("how")
+    # only the options relevant for this selection mode are symbolic (unused arguments cost no paths)
+    if how in (2, 3) or not h.P("vary_tag_opts", True):
+        use_map = use_fn = False
+    if how == 3:
+        value_only = 0
+    if how != 2:
+        idx = 0
     try:
-        k = _pick(n, 4)
-        codes = [_pick(c, 9) for c in (c0, c1, c2)][:k]
-        sel = KEYS[_pick(key, 3)]
+        k = _pick(n, 1 + h.P("maxn", 2))
+        # 6 codes: keys {species, call, crowsetta} x values {"a", "bb"}
+        codes = [_pick(c, 6) for c in (c0, c1, c2)][:k]
+        sel = KEYS[_pick(key, 2)] if how == 1 else KEYS[0]
     except _Vac:
         return True
     tags = _tags(codes)
@@ -327,7 +335,7 @@ def ob_sequence_policy(k0: int, k1: int, k2: int, n: int, ignore: bool, cast: bo
     """
     # kinds: 0 = TimeInterval, 1 = BoundingBox, 2 = no geometry, 3 = TimeStamp (zero extent)
     try:
-        m = _pick(n, 4)
+        m = _pick(n, 1 + h.P("maxn", 3))
         kinds = [_pick(k, 4) for k in (k0, k1, k2)][:m]
     except _Vac:
         return True
@@ -440,10 +448,16 @@ def plan():
                       twins=("seconds", "samples", "expanded", "empty"), twin_timeout=200))
         obs.append(Ob("import-bbox-sr%d" % sr, ob_import_bbox, "real", 600, dict(sr=sr), tiers,
                       twins=("expanded", "plain"), twin_timeout=200))
-    obs.append(Ob("label-to-tags", ob_label_to_tags, "real", 1800, {}, q, twins=("empty", "fn", "mapped", "fallback"),
-                  twin_timeout=200))
-    obs.append(Ob("label-from-tags", ob_label_from_tags, "real", 3000, {}, q,
-                  twins=("join", "bykey", "index", "empty"), twin_timeout=300))
+    obs.append(Ob("label-to-tags", ob_label_to_tags, "real", 1800, dict(nlabels=2), q,
+                  twins=("empty", "fn", "mapped", "fallback"), twin_timeout=200))
+    obs.append(Ob("label-to-tags-5labels", ob_label_to_tags, "real", 3000, dict(nlabels=5), ("thorough",),
+                  twins=("fn",), twin_timeout=200))
+    for how, nm, tw in ((0, "join", ("join", "empty")), (1, "bykey", ("bykey", "empty")), (2, "index", ("index", "empty")),
+                        (3, "seqfn", ("empty",))):
+        obs.append(Ob("label-from-tags-" + nm, ob_label_from_tags, "real", 1200,
+                      dict(how=how, maxn=2, vary_tag_opts=(how == 0)), q, twins=tw, twin_timeout=300))
+        obs.append(Ob("label-from-tags-%s-n3" % nm, ob_label_from_tags, "real", 6000, dict(how=how, maxn=3),
+                      ("thorough",), twins=tw[:1], twin_timeout=300))
     for tag, variant in ALL_TV:
         tiers = q if tag in ("TimeInterval", "BoundingBox", "TimeStamp", "LineString") else ("thorough",)
         obs.append(Ob("export-segment-%s" % tag, ob_export_segment, "real", 900,
@@ -452,8 +466,10 @@ def plan():
         obs.append(Ob("export-bbox-%s" % tag, ob_export_bbox, "real", 900, dict(tag=tag, variant=variant, sr=44100),
                       tiers, twins=("refused",) if tag in ("TimeStamp", "Point") else ("ok", "refused", "capped")
                       if tag not in ("TimeInterval",) else ("ok", "refused"), twin_timeout=200))
-    obs.append(Ob("sequence-error-policy", ob_sequence_policy, "real", 3000, {}, q, twins=("all", "skipped", "raised"),
-                  twin_timeout=300))
+    obs.append(Ob("sequence-error-policy-n2", ob_sequence_policy, "real", 1200, dict(maxn=2), q,
+                  twins=("all", "skipped", "raised"), twin_timeout=300))
+    obs.append(Ob("sequence-error-policy-n3", ob_sequence_policy, "real", 6000, dict(maxn=3), ("thorough",),
+                  twins=("all",), twin_timeout=300))
     obs.append(Ob("roundtrip-export-import", ob_roundtrip, "real", 1800, {}, q, twins=("two", "one"), twin_timeout=300))
     return obs
 
